@@ -617,7 +617,8 @@ theorem loop_count (f : Nat) (ihRv : RvToGoal V img K f) (ihC : CountIter V img 
       rcases ho with h | h <;> simp at h
 
 /-- `repeat with v from a to b` -/
-theorem loop_range (f : Nat) (ihC : CountIter V img K f) (v : String) (a b : Rv) (ha : RvOK a) (hbd : RvOK b)
+theorem loop_range (f : Nat) (ihRv : RvToGoal V img K f) (ihC : CountIter V img K f) (v : String) (a b : Rv)
+    (ha : RvC V a) (hbd : RvC V b)
     (body : Block) (hb : FragBlock V body) (σ σ' : S) (o : Outcome) (s : State) (pc exit : Nat)
     (stk : Stk) (sim : Sim K stk σ s) (hpc : s.pc = (pc : Int))
     (hc : CodeAt img pc (resolve (genLoop (.range v a b) (genBlock body)) pc exit))
@@ -630,13 +631,13 @@ theorem loop_range (f : Nat) (ihC : CountIter V img K f) (v : String) (a b : Rv)
   · rename_i o' he
     simp only [Prod.mk.injEq] at h
     obtain ⟨rfl, rfl⟩ := h
-    exact (error_excluded ha he ho).elim
+    exact (errorC_excluded he ho).elim
   · rename_i x σ1 hea
     split at h
     · rename_i o' he
       simp only [Prod.mk.injEq] at h
       obtain ⟨rfl, rfl⟩ := h
-      exact (error_excluded hbd he ho).elim
+      exact (errorC_excluded he ho).elim
     · rename_i y σ2 heb
       split at h
       · rename_i p q hp hq
@@ -645,10 +646,8 @@ theorem loop_range (f : Nat) (ihC : CountIter V img K f) (v : String) (a b : Rv)
           (σ2.assign v x) σ' o s pc exit stk sim hpc hc ?_ h ho
         intro hcpre t ht
         simp only [indexVarRange, if_true] at hcpre ⊢
-        obtain ⟨rfl, hex1⟩ := exec_toLoopVar a ha .first [] _ ht.2 ht.1 hcpre.left.left.left hea
-        refine hex1.trans fun t1 ht1 => ?_
-        obtain ⟨rfl, hex2⟩ := exec_toLoopVar b hbd .last _ _ ht1.2 ht1.1 hcpre.left.left.right heb
-        refine hex2.trans fun t2 ht2 => ?_
+        refine (rv_toLoopVar ihRv a ha .first [] _ ht.2 ht.1 hcpre.left.left.left hea).trans fun t1 ht1 => ?_
+        refine (rv_toLoopVar ihRv b hbd .last _ _ ht1.2 ht1.1 hcpre.left.left.right heb).trans fun t2 ht2 => ?_
         have hfirst : getVar (putVar (putVar [] .first x) .last y) .first = x := by
           rw [getVar_putVar_other _ _ _ _ (by decide), getVar_putVar]
         have hlast : getVar (putVar (putVar [] .first x) .last y) .last = y := getVar_putVar _ _ _
@@ -672,8 +671,9 @@ theorem loop_range (f : Nat) (ihC : CountIter V img K f) (v : String) (a b : Rv)
         rcases ho with h | h <;> simp at h
 
 /-- the counted forms with a `with` clause: `repeat n with v from a to b`, `repeat n with v cycle [s]` -/
-theorem loop_with (f : Nat) (ihC : CountIter V img K f) (n : Rv) (hn : RvOK n) (wc : WithClause)
-    (hw : WithOK wc) (body : Block) (hb : FragBlock V body) (σ σ' : S) (o : Outcome) (s : State)
+theorem loop_with (f : Nat) (ihRvs : RvToGoals V img K f) (ihC : CountIter V img K f) (n : Rv) (hn : RvC V n)
+    (wc : WithClause)
+    (hw : WithOK V wc) (body : Block) (hb : FragBlock V body) (σ σ' : S) (o : Outcome) (s : State)
     (pc exit : Nat) (stk : Stk) (sim : Sim K stk σ s) (hpc : s.pc = (pc : Int))
     (hc : CodeAt img pc (resolve (assembleLoop (genRv n (.to counter) ++ withCode wc) counterTest []
       (genBlock body) (loopPost (some (withVarOf wc)))) pc exit))
@@ -696,7 +696,7 @@ theorem loop_with (f : Nat) (ihC : CountIter V img K f) (n : Rv) (hn : RvOK n) (
   · rename_i o' he
     simp only [Prod.mk.injEq] at h
     obtain ⟨rfl, rfl⟩ := h
-    exact (error_excluded hn he ho).elim
+    exact (errorC_excluded he ho).elim
   · rename_i cnt σ1 he
     split at h
     · simp only [Prod.mk.injEq] at h
@@ -708,7 +708,7 @@ theorem loop_with (f : Nat) (ihC : CountIter V img K f) (n : Rv) (hn : RvOK n) (
       · rename_i o' hew
         simp only [Prod.mk.injEq] at h
         obtain ⟨rfl, rfl⟩ := h
-        have := evalWith_error hw f cnt σ1 _ hew
+        have := evalWith_error f cnt σ1 _ hew
         rcases ho with rfl | rfl <;> simp at this
       · simp only [Prod.mk.injEq] at h
         obtain ⟨rfl, rfl⟩ := h
@@ -718,12 +718,12 @@ theorem loop_with (f : Nat) (ihC : CountIter V img K f) (n : Rv) (hn : RvOK n) (
         refine loop_counted f ihC _ none (some (withVarOf wc, i)) body hb _ σ σ2 σ' o s pc exit stk sim hpc hc
           ?_ h ho
         intro hcpre t ht
-        obtain ⟨rfl, hcnt⟩ := exec_toCounter n hn [] _ ht.2 ht.1 hcpre.left he
-        refine hcnt.trans fun t1 ht1 => ?_
-        refine (exec_with wc hw cnt q fl ht1.2 ht1.1 hcpre.right (getVar_putVar [] .counter cnt) hnum hew).mono
+        refine (rv_toLoopVar (ihRvs f (Nat.le_refl f)) n hn .counter [] _ ht.2 ht.1 hcpre.left he).trans
+          fun t1 ht1 => ?_
+        refine (exec_with ihRvs wc hw cnt q fl ht1.2 ht1.1 hcpre.right (getVar_putVar [] .counter cnt) hnum hew).mono
           fun t2 ⟨vars', ht2, hc2, hi2⟩ => ?_
         refine ⟨vars', cnt, q, fl, ⟨?_, ht2.2⟩, hc2, hnum, ?_, (passes_replicate _).symm⟩
-        · rw [ht2.1]; simp only [List.length_append]; congr 1; omega
+        · rw [ht2.1]; simp only [List.length_append, counter]; omega
         · intro p' hp'
           simp only [Option.mem_def, Option.some.injEq] at hp'
           subst hp'
@@ -743,8 +743,9 @@ theorem passes_nat (n : Nat) : passes (((n : Int)) : Rat) = n := by
 /-- **a loop over names**: `LOOP`, the counter set to 0, the discovery code `disc` (which pushes the
 names `names` and counts them, leaving the source-level state `σd`), the `with` clause, the passes —
 each starting with the next name popped into `lv` —, `END_LOOP` -/
-theorem loop_names (g : Nat) (ihC : CountIter V img K g) (disc : List Instr) (lv : String)
-    (w : Option WithClause) (hw : OWithOK w) (body : Block) (hb : FragBlock V body) (names : List String)
+theorem loop_names (g : Nat) (ihRvs : RvToGoals V img K g) (ihC : CountIter V img K g) (disc : List Instr)
+    (lv : String)
+    (w : Option WithClause) (hw : OWithOK V w) (body : Block) (hb : FragBlock V body) (names : List String)
     (σ σd σ' : S) (o : Outcome) (s : State) (pc exit : Nat) (stk : Stk)
     (sim : Sim K stk σ s) (hpc : s.pc = (pc : Int))
     (hc : CodeAt img pc (resolve (assembleLoop ([.moveq (.int 0) counter] ++ disc ++ withClause w) counterTest
@@ -775,13 +776,13 @@ theorem loop_names (g : Nat) (ihC : CountIter V img K g) (disc : List Instr) (lv
     refine ⟨vars', _, _, false, ⟨?_, ht'.2⟩, hcnt, hnum, by simp, passes_nat _⟩
     rw [ht'.1]; simp [withClause]; omega
   | some wc =>
-    have hwc : WithOK wc := hw
+    have hwc : WithOK V wc := hw
     simp only at h
     split at h
     · rename_i o' hew
       simp only [Prod.mk.injEq] at h
       obtain ⟨rfl, rfl⟩ := h
-      have := evalWith_error hwc g _ σd _ hew
+      have := evalWith_error g _ σd _ hew
       rcases ho with rfl | rfl <;> simp at this
     · simp only [Prod.mk.injEq] at h
       obtain ⟨rfl, rfl⟩ := h
@@ -798,7 +799,7 @@ theorem loop_names (g : Nat) (ihC : CountIter V img K g) (disc : List Instr) (lv
         have := hcpre.right
         rw [withClause_some] at this
         exact this.cast (by simp; omega)
-      refine (exec_with wc hwc (.int names.length) _ false ht1.2 ht1.1 hcw hcnt1 hnum hew).mono
+      refine (exec_with ihRvs wc hwc (.int names.length) _ false ht1.2 ht1.1 hcw hcnt1 hnum hew).mono
         fun t2 ⟨vars2, ht2, hc2, hi2⟩ => ?_
       refine ⟨vars2, _, _, false, ⟨?_, ht2.2⟩, hc2, hnum, ?_, passes_nat _⟩
       · rw [ht2.1]; simp [withClause_some]; omega
@@ -807,9 +808,10 @@ theorem loop_names (g : Nat) (ihC : CountIter V img K g) (disc : List Instr) (lv
         subst hp'
         exact hi2
 
-theorem loop_step (f : Nat) (ihRv : RvToGoal V img K f) (ihW : WhileIter V img K f) (ihC : CountIter V img K f)
+theorem loop_step (f : Nat) (ihRvs : RvToGoals V img K f) (ihW : WhileIter V img K f) (ihC : CountIter V img K f)
     (ihC1 : ∀ g, g + 1 = f → CountIter V img K g) : LoopGoal V img K (f + 1) := by
   intro hd body hhd hb σ σ' o s pc exit stk sim hpc hc h ho
+  have ihRv := ihRvs f (Nat.le_refl f)
   cases hd with
   | forever =>
     exact loop_while f ihW none trivial body hb σ σ' o s pc exit stk sim hpc hc
@@ -818,19 +820,19 @@ theorem loop_step (f : Nat) (ihRv : RvToGoal V img K f) (ihW : WhileIter V img K
     exact loop_while f ihW (some c) hhd body hb σ σ' o s pc exit stk sim hpc hc
       (by simpa only [execLoop] using h) ho
   | count n => exact loop_count f ihRv ihC n hhd body hb σ σ' o s pc exit stk sim hpc hc h ho
-  | range v a b => exact loop_range f ihC v a b hhd.1 hhd.2 body hb σ σ' o s pc exit stk sim hpc hc h ho
+  | range v a b => exact loop_range f ihRv ihC v a b hhd.1 hhd.2 body hb σ σ' o s pc exit stk sim hpc hc h ho
   | interp n v a b =>
-    exact loop_with f ihC n hhd.1 (.fromTo v a b) hhd.2 body hb σ σ' o s pc exit stk sim hpc hc
+    exact loop_with f ihRvs ihC n hhd.1 (.fromTo v a b) hhd.2 body hb σ σ' o s pc exit stk sim hpc hc
       (by simp only [execLoop] at h; exact h) ho
   | cycle n v start =>
-    exact loop_with f ihC n hhd.1 (.cycle v start) hhd.2 body hb σ σ' o s pc exit stk sim hpc hc
+    exact loop_with f ihRvs ihC n hhd.1 (.cycle v start) hhd.2 body hb σ σ' o s pc exit stk sim hpc hc
       (by simp only [execLoop] at h; exact h) ho
   | all lv w =>
     simp only [execLoop] at h
     cases f with
     | zero => simp only [iterLoop, Prod.mk.injEq] at h; rcases ho with rfl | rfl <;> simp at h
     | succ g =>
-      refine loop_names g (ihC1 g rfl) iterLights lv w hhd body hb _ σ _ σ' o s pc exit stk sim hpc hc ?_ h ho
+      refine loop_names g (fun g' hg' => ihRvs g' (Nat.le_succ_of_le hg')) (ihC1 g rfl) iterLights lv w hhd body hb _ σ _ σ' o s pc exit stk sim hpc hc ?_ h ho
       intro vars t p ht hp hcd hcnt
       refine (exec_iterSets (o := .light) (Or.inl rfl) (.loopVar .current) (Or.inl rfl) 0 ht hp hcd hcnt).mono
         fun t' ⟨vars', ht', hc'⟩ => ⟨vars', by simpa [namesOf, iterLights, iterSets, iterSkeleton_length] using ht',
@@ -840,7 +842,7 @@ theorem loop_step (f : Nat) (ihRv : RvToGoal V img K f) (ihW : WhileIter V img K
     cases f with
     | zero => simp only [iterLoop, Prod.mk.injEq] at h; rcases ho with rfl | rfl <;> simp at h
     | succ g =>
-      refine loop_names g (ihC1 g rfl) (iterSets .group) lv w hhd body hb _ σ _ σ' o s pc exit stk sim hpc hc
+      refine loop_names g (fun g' hg' => ihRvs g' (Nat.le_succ_of_le hg')) (ihC1 g rfl) (iterSets .group) lv w hhd body hb _ σ _ σ' o s pc exit stk sim hpc hc
         ?_ h ho
       intro vars t p ht hp hcd hcnt
       refine (exec_iterSets (o := .group) (Or.inr (Or.inl rfl)) (.reg .result) (Or.inr rfl) 0 ht hp hcd hcnt).mono
@@ -851,7 +853,7 @@ theorem loop_step (f : Nat) (ihRv : RvToGoal V img K f) (ihW : WhileIter V img K
     cases f with
     | zero => simp only [iterLoop, Prod.mk.injEq] at h; rcases ho with rfl | rfl <;> simp at h
     | succ g =>
-      refine loop_names g (ihC1 g rfl) (iterSets .location) lv w hhd body hb _ σ _ σ' o s pc exit stk sim hpc hc
+      refine loop_names g (fun g' hg' => ihRvs g' (Nat.le_succ_of_le hg')) (ihC1 g rfl) (iterSets .location) lv w hhd body hb _ σ _ σ' o s pc exit stk sim hpc hc
         ?_ h ho
       intro vars t p ht hp hcd hcnt
       refine (exec_iterSets (o := .location) (Or.inr (Or.inr rfl)) (.reg .result) (Or.inr rfl) 0 ht hp hcd
@@ -864,16 +866,16 @@ theorem loop_step (f : Nat) (ihRv : RvToGoal V img K f) (ihW : WhileIter V img K
     · rename_i o' he
       simp only [Prod.mk.injEq] at h
       obtain ⟨rfl, rfl⟩ := h
-      have := iterNames_error items hhd.1 f σ _ he
+      have := iterNames_error items f σ _ he
       rcases ho with rfl | rfl <;> simp at this
     · rename_i names σ1 he
       cases f with
       | zero => simp [iterNames] at he
       | succ g =>
-        refine loop_names g (ihC1 g rfl) (iterItems items) lv w hhd.2 body hb names σ σ1 σ' o s pc exit stk sim
+        refine loop_names g (fun g' hg' => ihRvs g' (Nat.le_succ_of_le hg')) (ihC1 g rfl) (iterItems items) lv w hhd.2 body hb names σ σ1 σ' o s pc exit stk sim
           hpc hc ?_ h ho
         intro vars t p ht hp hcd hcnt
-        refine (exec_iterItems items hhd.1 (g + 1) σ σ1 names vars [] t p 0 he ht hp hcd hcnt).mono
+        refine (exec_iterItems items hhd.1 (g + 1) ihRvs σ σ1 names vars [] t p 0 he ht hp hcd hcnt).mono
           fun t' ⟨vars', ht', hc'⟩ => ⟨vars', by simpa using ht', by simpa using hc'⟩
 
 theorem stmt_repeat (f : Nat) (ihL : LoopGoal V img K f) (hd : LoopHdr) (body : Block) (hhd : LoopHdrOK V hd)
